@@ -1,7 +1,7 @@
 (* Extraction of the executable models to OCaml.  ExtrOcamlBasic only; no Extract Constant /
    Extract Inductive of our own: nat, N, Z, positive, ascii stay the extracted inductives. *)
 Require Import ExtrOcamlBasic.
-Require Import Bytes Base64Model Rfc4648 NumParse Restartable TablesGen ParserModel ParserInst RouterModel QueueModel PromiseConc PromiseConcLemmas PromiseModel NetModel MimeModel CookieModel HeaderModel TransportModel WireModel LifecycleModel ClientModel DispatchModel ShutdownModel.
+Require Import Bytes Base64Model Rfc4648 NumParse Restartable TablesGen ParserModel ParserInst HandlerModel RouterModel QueueModel PromiseConc PromiseConcLemmas PromiseModel NetModel MimeModel CookieModel HeaderModel TransportModel WireModel LifecycleModel ClientModel DispatchModel ShutdownModel.
 Extraction "model.ml"
   Bytes.n2b Bytes.b2n
   Base64Model.encode Base64Model.decode Base64Model.set_basic Base64Model.get_basic
@@ -24,4 +24,5 @@ Extraction "model.ml"
   LifecycleModel.lrun
   ClientModel.kstep ClientModel.kinit ClientModel.final
   DispatchModel.run DispatchModel.responses
-  ShutdownModel.srun.
+  ShutdownModel.srun
+  HandlerModel.idle.
